@@ -155,7 +155,13 @@ func c16Primes(c *Ctx, r *Report) {
 			}
 		}
 	}
-	r.Check(okZero, "prime-table", "zero", v.Pos(), "util.zero = big.NewInt(0)", "util.zero is not big.NewInt(0) (or is reassigned): the remainder test compares against something else")
+	if z == nil {
+		// no package-level zero any more: the remainder test must then use a form that
+		// needs none (Sign() == 0, BitLen() == 0, Cmp(big.NewInt(0))) — trial-division decides
+		r.OK("prime-table", "zero", v.Pos(), false, "no util.zero variable")
+	} else {
+		r.Check(okZero, "prime-table", "zero", v.Pos(), "util.zero = big.NewInt(0)", "util.zero is not big.NewInt(0) (or is reassigned): the remainder test compares against something else")
+	}
 }
 
 // sliceWritten: an element store into the named global slice somewhere.
@@ -196,8 +202,10 @@ func c16TrialDivision(c *Ctx, r *Report) {
 			bad = "path not understood: " + o.Why
 			continue
 		}
-		// collect DivMod calls in order
-		var mods []*T
+		// collect the remainder computations in order: DivMod(q, n, p, m) leaves n mod p in
+		// m; Mod / Rem(z, n, p) leave it in z (also the call's value)
+		var mods []*T   // the object holding the i-th remainder
+		var modRes []*T // the call's own value (for Mod/Rem chains: new(big.Int).Mod(n, p).Sign())
 		for _, ev := range o.Trace {
 			switch {
 			case ev.Kind == "call" && ev.Name == "(*math/big.Int).DivMod":
@@ -206,10 +214,25 @@ func c16TrialDivision(c *Ctx, r *Report) {
 					bad = fmt.Sprintf("iteration %d divides %v (expected DivMod(q, %s, bigIntPrimes[%d], m))", i, ev.Args, dividend, i)
 				}
 				mods = append(mods, ev.Args[3])
-			case ev.Kind == "call" && (ev.Name == "math/big.NewInt" || ev.Name == "(*math/big.Int).Cmp"):
+				modRes = append(modRes, nil)
+			case ev.Kind == "call" && (ev.Name == "(*math/big.Int).Mod" || ev.Name == "(*math/big.Int).Rem"):
+				i := len(mods)
+				if len(ev.Args) != 3 || ev.Args[1].String() != dividend || ev.Args[2].String() != fmt.Sprintf("util.bigIntPrimes[%d]", i) {
+					bad = fmt.Sprintf("iteration %d computes %v (expected Mod(%s, bigIntPrimes[%d]))", i, ev.Args, dividend, i)
+				}
+				mods = append(mods, ev.Args[0])
+				modRes = append(modRes, ev.Result)
+			case ev.Kind == "call" && (ev.Name == "math/big.NewInt" || ev.Name == "(*math/big.Int).Cmp" || ev.Name == "(*math/big.Int).Sign" || ev.Name == "(*math/big.Int).BitLen"):
 			default:
 				bad = "unexpected effect: " + ev.String()
 			}
+		}
+		isRem := func(t *T, k int) bool {
+			return k < len(mods) && (t == mods[k] || (modRes[k] != nil && t == modRes[k]) || t.String() == mods[k].String())
+		}
+		isZeroBig := func(t *T) bool {
+			s := t.String()
+			return s == "util.zero" || s == "math/big.NewInt(0)" || strings.HasPrefix(s, "math/big.NewInt#") && strings.HasSuffix(s, "(0)")
 		}
 		// conditions: loop tests and (Cmp#k(m, zero) == 0)
 		k := 0
@@ -220,7 +243,17 @@ func c16TrialDivision(c *Ctx, r *Report) {
 				continue
 			}
 			if t.Op == "bin" && t.Name == "==" && t.Args[1].String() == "0" {
-				if args, ok := t.Args[0].CallNamed("(*math/big.Int).Cmp"); ok && len(args) == 2 && k < len(mods) && args[0] == mods[k] && args[1].String() == "util.zero" {
+				// remainder == 0, spelt m.Cmp(zero) == 0, m.Sign() == 0 or m.BitLen() == 0
+				hit := false
+				if args, ok := t.Args[0].CallNamed("(*math/big.Int).Cmp"); ok && len(args) == 2 && isRem(args[0], k) && isZeroBig(args[1]) {
+					hit = true
+				}
+				for _, m := range []string{"(*math/big.Int).Sign", "(*math/big.Int).BitLen"} {
+					if args, ok := t.Args[0].CallNamed(m); ok && len(args) == 1 && isRem(args[0], k) {
+						hit = true
+					}
+				}
+				if hit {
 					k++
 					lastHit = cd.Val
 					if cd.Val && cd != o.Conds[len(o.Conds)-1] {
@@ -478,7 +511,8 @@ func c16Fermat(c *Ctx, r *Report) {
 	rounds := fn.Params[1]
 	ok := false
 	why := "no loop of the form for i := 0; i < rounds; i++ found"
-	allInstrs(fn, func(in ssa.Instruction) {
+	// (the loop may sit in a helper newer than the rules that the function is split into)
+	allInstrsDeep(fn, func(in ssa.Instruction) {
 		phi, isPhi := in.(*ssa.Phi)
 		if !isPhi || len(phi.Edges) != 2 {
 			return
@@ -500,7 +534,7 @@ func c16Fermat(c *Ctx, r *Report) {
 			return
 		}
 		for _, ref := range *phi.Referrers() {
-			if cmp, isB := ref.(*ssa.BinOp); isB && cmp.Op == token.LSS && cmp.X == phi && cmp.Y == rounds {
+			if cmp, isB := ref.(*ssa.BinOp); isB && cmp.Op == token.LSS && cmp.X == phi && (cmp.Y == ssa.Value(rounds) || apath(cmp.Y) == rounds.Name()) {
 				ok = true
 			}
 		}
